@@ -142,6 +142,13 @@ theorem resume_selects (idOf : Nat → Id) (s s' : Store) (inputs : List Nat) (s
 example : applyTo (fun m => m % 10) (fun m => .ok ⟨1, m, some m⟩) [] [11, 22, 33] [2, 0, 1]
     = some [(3, .ok ⟨1, 33, some 33⟩), (1, .ok ⟨1, 11, some 11⟩), (2, .ok ⟨1, 22, some 22⟩)] := by decide
 
+-- (auditor) non-vacuity of `resume_same_store`: an interrupted run with all hypotheses instantiated (three inputs, the
+-- second fails; results arrive as 33, 22, 11; killed after two of them; the re-run selects 11 and 22 again, not 33)
+def exApp : Nat → Val := fun m => if m = 22 then .nc ⟨.error, 2, .exc 1, some 22⟩ else .ok ⟨1, m, some m⟩
+example := resume_same_store (fun m => m % 10) exApp [] [11, 22, 33] [(1, 11), (2, 22), (3, 33)] (by decide)
+    [(33, exApp 33), (22, exApp 22), (11, exApp 11)] (by decide) 2
+    [(1, 11), (2, 22)] (by decide) [(22, exApp 22), (11, exApp 11)] (by decide)
+
 /-! ## historical variants (NOT the current code)
 
 What the same statements look like for the versions before the `fix:` commits.  The harness names
